@@ -488,7 +488,7 @@ package stream
 //@ ensures.ha[C15,C10] ty == "kubernetesHa" ==> typeis(as(result, "*vBucketDiscovery").membership, "*kubernetes.haMembership")
 //@ ensures.dynamic[C15,C10] ty == "dynamic" ==> typeis(as(result, "*vBucketDiscovery").membership, "*membership.dynamicMembership")
 //@ ensures.shape[C15] typeis(result, "*vBucketDiscovery") && as(result, "*vBucketDiscovery").vBucketNumber == vBucketNumber && as(result, "*vBucketDiscovery").membership != nil
-//@ modifies calls("config.(*Dcp).GetCouchbaseMetadata"), calls("config.(*Dcp).GetCouchbaseMembership"), calls(EventBus.Bus.SubscribeAsync), calls("kubernetes.getPodOrdinalFromHostname"), calls("couchbase.(*cbMembership).register"), calls("couchbase.(*cbMembership).createIndex"), calls("couchbase.CreatePath"), calls("couchbase.UpdateDocument"), calls("couchbase.CreateDocument"), calls("gocbcore.(*Agent).MutateIn"), calls("gocbcore.(*Agent).Set"), calls(couchbase.AsyncOp.Wait), calls(gocbcore.PendingOp.Cancel), calls(select.case), calls(couchbase.Client.GetMetaAgent), calls("couchbase.(*cbMembership).startHeartbeat"), calls("couchbase.(*cbMembership).startMonitor"), calls("time.(Time).UnixNano")
+//@ modifies calls("os.Hostname"), calls("config.(*Dcp).GetCouchbaseMetadata"), calls("config.(*Dcp).GetCouchbaseMembership"), calls(EventBus.Bus.SubscribeAsync), calls("kubernetes.getPodOrdinalFromHostname"), calls("couchbase.(*cbMembership).register"), calls("couchbase.(*cbMembership).createIndex"), calls("couchbase.CreatePath"), calls("couchbase.UpdateDocument"), calls("couchbase.CreateDocument"), calls("gocbcore.(*Agent).MutateIn"), calls("gocbcore.(*Agent).Set"), calls(couchbase.AsyncOp.Wait), calls(gocbcore.PendingOp.Cancel), calls(select.case), calls(couchbase.Client.GetMetaAgent), calls("couchbase.(*cbMembership).startHeartbeat"), calls("couchbase.(*cbMembership).startMonitor"), calls("time.(Time).UnixNano")
 
 // ---------- who asks for a save (C05): the explicit Commit path and the periodic schedule ----------
 //@ func (*stream).Save
